@@ -468,4 +468,13 @@ void run_C03(void) {
   // modules / tables created, used and destroyed in random order, several alive at once
   for (unsigned rep = 0; rep < (G.thorough ? 240u : 24u); rep++)
     ops_lifecycle_case("C03 objects", LKM_MOD_NTT120 | LKM_MOD_FFT64 | LKM_NTT | LKM_INTT, (rep % 4) == 3 ? DISP_GENERIC : DISP_NATIVE, 160, 0, rep, "lifecycle_uses");
+  // the NTT120 entry points run by several threads at once on private data (shared module / tables), every dimension regime
+  {
+    static const char* const CNAMES[] = {"q120_ntt_bb_avx2", "q120_intt_bb_avx2", "vec_znx_dft@ntt120", "vec_znx_idft@ntt120", "vec_znx_idft_tmp_a@ntt120"};
+    static const uint64_t CNS[] = {4, 64, 1024, 2048, 8192, 65536};
+    for (size_t i = 0; i < ARRAY_LEN(CNS); i++)
+      for (unsigned rep = 0; rep < (G.thorough ? 5u : 1u); rep++) ops_concurrent_case("C03 entry points", CNAMES, (int)ARRAY_LEN(CNAMES), CNS[i], DISP_NATIVE, CNS[i] <= 256 ? 8 : 4, rep, "concurrent_entry_calls");
+    static const char* const RNAMES[] = {"q120_ntt_bb_avx2", "q120_intt_bb_avx2", "vec_znx_dft@ntt120", "vec_znx_idft@ntt120", "vec_znx_idft_tmp_a@ntt120"};
+    for (size_t i = 0; i < 4; i++) ops_recontent_case("C03 entry points", RNAMES, (int)ARRAY_LEN(RNAMES), CNS[i], DISP_NATIVE, 6, (unsigned)i, "same_buffers_other_data_calls");
+  }
 }
